@@ -143,9 +143,13 @@ def step_terms(case, with_reload=True, with_cut=True, expect_fail=False):
                 if ex.get("err_a") or ex.get("err_b") or not rel or res != "ok":
                     reason = "crashin error"
                     break
-                mop = {"sign": "OSign", "revoke": "ORevoke", "deliver": "ODeliver"}[op[2]]
-                t = "TCrashIn (%s %s) %s %s %s %s" % (
-                    mop, pb(op[1]), pb(op[1]), obs_term(rel, op[1]),
+                if op[2] == "sync":
+                    call = "CCSync"
+                else:
+                    call = "(CCOp (%s %s))" % ({"sign": "OSign", "revoke": "ORevoke",
+                                               "deliver": "ODeliver"}[op[2]], pb(op[1]))
+                t = "TCrashIn %s %s %s %s %s" % (
+                    call, pb(op[1]), obs_term(rel, op[1]),
                     clist([cN(KIND[x]) for x in ex.get("sync_a", [])]),
                     clist([cN(KIND[x]) for x in ex.get("sync_b", [])]))
         else:
